@@ -342,20 +342,45 @@ impl VmCase {
             .map(|p| t.program(p))
             .collect::<Option<Vec<_>>>()
             .ok_or("instruction without a real counterpart")?;
+        let default_order: Vec<usize> = (0..self.inputs.len()).collect();
+        macro_rules! bind_inputs {
+            ($b:ident) => {
+                for &n in order.unwrap_or(&default_order) {
+                    let Some(l) = self.inputs.get(n) else { continue };
+                    let name = input_name(n as u8);
+                    $b = match l {
+                        Lit::Int(v) => $b.with_int_input(&name, *v),
+                        Lit::Float(v) => $b.with_float_input(&name, OrderedFloat(v.v())),
+                        Lit::Bool(v) => $b.with_bool_input(&name, *v),
+                    };
+                }
+            };
+        }
+        // Two routes to the same configured state, chosen by the case: everything through the builder
+        // (per-stack maxima and initial values included), or maxima and contents set on the built state.
+        let through_builder = (self.max_int + self.max_float + self.steps) % 2 == 0;
+        if through_builder {
+            let mut b = PushState::builder()
+                .with_max_stack_size(self.max_exec)
+                .with_int_max_size(self.max_int)
+                .with_float_max_size(self.max_float)
+                .with_bool_max_size(self.max_bool)
+                .with_program(program)
+                .map_err(|e: StackError| format!("builder rejected program: {e}"))?
+                .with_int_values(self.int.iter().rev().copied())
+                .map_err(|e: StackError| format!("builder rejected int values: {e}"))?
+                .with_float_values(self.float.iter().rev().map(|f| OrderedFloat(f.v())).collect::<Vec<_>>())
+                .map_err(|e: StackError| format!("builder rejected float values: {e}"))?
+                .with_bool_values(self.boolean.iter().rev().copied())
+                .map_err(|e: StackError| format!("builder rejected bool values: {e}"))?;
+            bind_inputs!(b);
+            return Ok(b.with_instruction_step_limit(steps).build());
+        }
         let mut b = PushState::builder()
             .with_max_stack_size(self.max_exec)
             .with_program(program)
             .map_err(|e: StackError| format!("builder rejected program: {e}"))?;
-        let default_order: Vec<usize> = (0..self.inputs.len()).collect();
-        for &n in order.unwrap_or(&default_order) {
-            let Some(l) = self.inputs.get(n) else { continue };
-            let name = input_name(n as u8);
-            b = match l {
-                Lit::Int(v) => b.with_int_input(&name, *v),
-                Lit::Float(v) => b.with_float_input(&name, OrderedFloat(v.v())),
-                Lit::Bool(v) => b.with_bool_input(&name, *v),
-            };
-        }
+        bind_inputs!(b);
         let mut s = b.with_instruction_step_limit(steps).build();
         {
             let st = s.stack_mut::<i64>();
